@@ -7,11 +7,18 @@ name=$1; prop=$2; wt=$3; out=$4
 export CARGO_NET_OFFLINE=true
 dest=/verif/seeded/$name
 mkdir -p $dest
+if [ -f $out/patch.diff ]; then
 cp $out/patch.diff $dest/patch.diff
 cp $out/demo.rs $dest/demo.rs 2>/dev/null
 cp $out/meta.md $dest/agent_meta.md 2>/dev/null
+fi
 feat=""
 grep -qiE "features? (core|json)|--features" $out/meta.md 2>/dev/null && feat="--features core,json"
+if [ "${SEED_CHECKS_ONLY:-0}" = "1" ] && [ -f $dest/meta.json ]; then
+  suite=$(python3 -c "import json;print(json.load(open('$dest/meta.json'))['suite_with_change'])")
+  with=$(python3 -c "import json;print(json.load(open('$dest/meta.json'))['demo_with_change'])")
+  without=$(python3 -c "import json;print(json.load(open('$dest/meta.json'))['demo_without_change'])")
+else
 cd $wt || exit 2
 # known state: HEAD + the delivered patch (git stash is shared between worktrees, never use it)
 git checkout -q -- src
@@ -31,6 +38,7 @@ without=$(cargo test --offline $feat --test $dn 2>&1 | grep -E "^test result" | 
 git apply $out/patch.diff
 rm -rf /tmp/wt-target/$name
 unset CARGO_TARGET_DIR
+fi
 echo "suite_with_change: $suite"
 echo "demo_with_change: $with"
 echo "demo_without_change: $without"
